@@ -35,6 +35,12 @@ Failure classes (signatures):
         text has ']|n' directly followed by a bond symbol and int() raised ValueError
   read_cgsmiles/multiplied-branch-containing-branch               F8, rest (finding): some multiplied branch has a
         branch in its content and the result is not isomorphic / KeyError / IndexError
+  read_cgsmiles/multiplied-branch-after-closed-branch-inside-branch   F8, rest ("nested branch + sibling"): a multiplied
+        branch inside a branch, with another branch of the same top-level branch closed before it; the stale recipe
+        of the closed branch is replayed (`{[#X]([#C]([#D])[#E]([#F])|2)}` gives a self loop); needs >= 5 node tokens
+  read_cgsmiles/multiplied-node-with-bond-symbol-inside-multiplied-branch   candidate finding: `[#A].([#B]|2)|2` -- in the
+        copies made by the branch expansion all copies of B are bonded with the incoming order of B (recipe stores
+        one order per entry), the longhand bonds B-B with order 1
   read_cgsmiles/consecutive-branch-closures                       F7 seen through C05: two closures without a node
         token between them (a multiplier may sit between), a node token later, and the result is not isomorphic /
         KeyError / IndexError; only when no multiplied branch contains a branch
@@ -53,12 +59,15 @@ P_TARGETS = []
 BUDGET = {'quick': 33.0, 'thorough': 450.0}
 CHUNK = 300
 BOUNDS = {
-    'quick': {'exhaustive_max_node_tokens': 4, 'multipliers_per_string': 2, 'counts': [2, 3], 'nesting_depth': 3,
-              'non_default_bond_symbols': 2, 'symbol_positions': 'incoming symbol of every node (incl. after |n), between ) and |n',
+    'quick': {'exhaustive_max_node_tokens': '3 with <=2 multipliers and <=2 symbols; 4 with (1 multiplier, <=2 symbols) and '
+                                            '(2 multipliers, <=1 symbol); 5 with 1 multiplier and no symbol',
+              'counts': [2, 3], 'nesting_depth': 3,
+              'symbol_positions': 'incoming symbol of every node (incl. after |n), between ) and |n',
               'one_ring_bond_outside_units': True, 'annotated_max_node_tokens': 4,
               'branch_count_one_max_tokens': 4, 'ring_inside_unit_max_tokens': 4,
               'random_cases': 3000, 'random_node_tokens': '4..14', 'random_counts': '1..12', 'random_multipliers': '1..3'},
-    'thorough': {'exhaustive_max_node_tokens': '5 with <=2 multipliers and <=2 symbols; 6 with 1 multiplier and <=1 symbol',
+    'thorough': {'exhaustive_max_node_tokens': '4 with <=2 multipliers and <=2 symbols; 5 with (1 multiplier, <=2 symbols) and '
+                                               '(2 multipliers, <=1 symbol); 6 with 1 multiplier and <=1 symbol',
                  'counts': [2, 3], 'nesting_depth': 3,
                  'symbol_positions': 'incoming symbol of every node (incl. after |n), between ) and |n',
                  'one_ring_bond_outside_units': True, 'annotated_max_node_tokens': 6,
@@ -99,7 +108,9 @@ def cases(tier, seed):
         yield from g1.c05_branch_count_one_recipes(4)
         yield from g1.c05_ring_in_unit_recipes(4)
         yield from g1.c05_annotated_recipes(4, branch_in_unit=True)
-        yield from g1.c05_recipes(4, max_mults=2, min_tokens=4)
+        yield from g1.c05_recipes(5, max_mults=1, max_nondefault=0, min_tokens=5, with_ring=False)
+        yield from g1.c05_recipes(4, max_mults=1, max_nondefault=2, min_tokens=4)
+        yield from g1.c05_recipes(4, max_mults=2, max_nondefault=1, min_tokens=4, min_mults=2)
         yield from g1.c05_random(seed, 2500, branch_in_unit=False)
         yield from g1.c05_random(seed + 1, 500, branch_in_unit=True)
     else:
@@ -108,16 +119,17 @@ def cases(tier, seed):
         yield from g1.c05_ring_in_unit_recipes(6)
         yield from g1.c05_annotated_recipes(6, branch_in_unit=True)
         yield from g1.c05_random(seed, 20000, branch_in_unit=False)
+        yield from g1.c05_recipes(5, max_mults=1, max_nondefault=2, min_tokens=5)
+        yield from g1.c05_recipes(5, max_mults=2, max_nondefault=1, min_tokens=5, min_mults=2)
         yield from g1.c05_recipes(6, max_mults=1, max_nondefault=1, min_tokens=6)
-        yield from g1.c05_recipes(5, max_mults=2, min_tokens=5)
         yield from g1.c05_random(seed + 2, 70000, branch_in_unit=False)
         yield from g1.c05_random(seed + 1, 10000, branch_in_unit=True)
 
 
 def feature_tag(f):
     tags = []
-    for name, key in (('node-mult', 'node_mult'), ('branch-mult', 'branch_mult'), ('branch', 'branch'), ('nested', 'nested'),
-                      ('ring', 'ring'), ('symbol', 'symbol'), ('annotation', 'annotation')):
+    for name, key in (('node-mult', 'node_mult'), ('branch-mult', 'branch_mult'), ('ring', 'ring'), ('symbol', 'symbol'),
+                      ('annotation', 'annotation')):
         if f[key]:
             tags.append(name)
     return '+'.join(tags)
@@ -137,24 +149,45 @@ def multiplied_node_with_symbol_in_multiplied_branch(chain, inside=False):
     return False
 
 
+def multiplied_branch_after_closed_branch_in_branch(ast):
+    """some multiplied branch sits inside a branch, and another branch inside the same top-level branch is closed
+    before it opens (the reader keeps the recipe of that closed branch and replays it)"""
+    found = [False]
+
+    def walk(chain, depth, state):
+        for n in chain:
+            for b in n['br']:
+                if depth == 0:
+                    walk(b['chain'], 1, [0])
+                else:
+                    if (b['mult'] or 0) >= 2 and state[0] > 0:
+                        found[0] = True
+                    walk(b['chain'], depth + 1, state)
+                    state[0] += 1
+    walk(ast, 0, None)
+    return found[0]
+
+
 def classify(ast, text, feats, kind, message=''):
+    """first matching (syntactic class of the input, kind of failure) pair wins"""
+    wrong_or_lookup = kind in _WRONG_GRAPH or kind in ('exception-KeyError', 'exception-IndexError')
     if kind == 'exception-ValueError' and g1.symbol_after_node_multiplier(text) and 'invalid literal for int' in message:
         return 'read_cgsmiles/bond-symbol-after-node-multiplier/ValueError'
-    if g1.outer_multiplied_branch_contains_branch(ast):
-        if kind in _WRONG_GRAPH or kind in ('exception-KeyError', 'exception-IndexError'):
-            return 'read_cgsmiles/multiplied-branch-containing-branch'
-    elif g1.consecutive_closures_then_token(text):
+    if wrong_or_lookup and g1.outer_multiplied_branch_contains_branch(ast):
+        return 'read_cgsmiles/multiplied-branch-containing-branch'
+    if wrong_or_lookup and multiplied_branch_after_closed_branch_in_branch(ast):
+        return 'read_cgsmiles/multiplied-branch-after-closed-branch-inside-branch'
+    if g1.consecutive_closures_then_token(text):
         # F7: the node after the closures is attached to the wrong anchor; with a ring bond on that node the
         # misplaced edge can coincide with the ring bond, which the reader reports as a duplicate edge
-        if kind in _WRONG_GRAPH or kind in ('exception-KeyError', 'exception-IndexError') or \
-                (kind == 'exception-SyntaxError' and feats['ring'] and 'two edges between the same node' in message):
+        if wrong_or_lookup or (kind == 'exception-SyntaxError' and feats['ring']
+                               and 'two edges between the same node' in message):
             return 'read_cgsmiles/consecutive-branch-closures'
-    elif multiplied_node_with_symbol_in_multiplied_branch(ast):
-        if kind in _WRONG_GRAPH:
-            return 'read_cgsmiles/multiplied-node-with-bond-symbol-inside-multiplied-branch'
-    if g1.branch_multiplier_one(ast) and kind == 'exception-UnboundLocalError':
+    if kind in _WRONG_GRAPH and multiplied_node_with_symbol_in_multiplied_branch(ast):
+        return 'read_cgsmiles/multiplied-node-with-bond-symbol-inside-multiplied-branch'
+    if kind == 'exception-UnboundLocalError' and g1.branch_multiplier_one(ast):
         return 'read_cgsmiles/branch-multiplier-one/UnboundLocalError'
-    if g1.ring_inside_multiplied_unit(ast) and kind in _WRONG_GRAPH:
+    if kind in _WRONG_GRAPH and g1.ring_inside_multiplied_unit(ast):
         return 'read_cgsmiles/ring-inside-multiplied-branch'
     return 'read_cgsmiles/%s/%s' % (feature_tag(feats), kind)
 
